@@ -16,8 +16,8 @@ ID = "C01"
 CASES = {"quick": 4500, "thorough": 60000}
 FLOOR = {"quick": 3000, "thorough": 40000}
 FLOOR_COUNTERS = {
-    "quick": {"configured_not_by_constructor": 1500, "non_default_containers": 1500, "integer_typed_inputs": 250, "threshold_stops": 200, "warm_links": 1000, "fits": 4000, "estimators_with_a_past": 800, "small_unit_cases": 200},
-    "thorough": {"configured_not_by_constructor": 20000, "non_default_containers": 20000, "integer_typed_inputs": 3500, "threshold_stops": 800, "warm_links": 4000, "fits": 30000, "estimators_with_a_past": 10000, "small_unit_cases": 3000},
+    "quick": {"compact_dtype_seeds_with_many_candidates": 100, "configured_not_by_constructor": 1500, "non_default_containers": 1500, "integer_typed_inputs": 250, "threshold_stops": 200, "warm_links": 1000, "fits": 4000, "estimators_with_a_past": 800, "small_unit_cases": 200},
+    "thorough": {"compact_dtype_seeds_with_many_candidates": 1500, "configured_not_by_constructor": 20000, "non_default_containers": 20000, "integer_typed_inputs": 3500, "threshold_stops": 800, "warm_links": 4000, "fits": 30000, "estimators_with_a_past": 10000, "small_unit_cases": 3000},
 }
 RULE = (
     "case = (selector class x direction [9 variants, round-robin], matrix family, n_to_select form "
@@ -51,6 +51,11 @@ def gen(rng, tier, index):
     hi = 13 if tier == "quick" else 28
     n, m = int(rng.integers(2, hi)), int(rng.integers(2, hi))
     kind = gens.pick(rng, gens.MATRIX_KINDS)
+    many = cls == "FPS" and index % 45 < 9  # more candidates than a compact integer dtype can count (seeds given as uint8)
+    if many:
+        big, small = int(rng.integers(258, 420)), int(rng.integers(3, 7))
+        n, m = (small, big) if direction == "feature" else (big, small)
+        kind = "gauss"
     X = gens.matrix(rng, n, m, kind)
     unit = 1.0
     if rng.random() < 0.25:  # the same data in small / large units (exact power of two)
@@ -77,6 +82,11 @@ def gen(rng, tier, index):
             lst = [int(i) for i in rng.permutation(N)[:L]]
             kw["initialize"] = {"list": lst} if rng.random() < 0.5 else {"array": lst}
             init_len = L
+        if many:  # seeds that fit a compact unsigned dtype, given in that dtype (array or list of numpy scalars)
+            L = int(rng.integers(1, 4))
+            lst = [int(i) for i in rng.permutation(250)[:L]]
+            kw["initialize"] = {("array" if rng.random() < 0.6 else "list"): lst, "dtype": gens.pick(rng, ("uint8", "uint8", "uint16", "int16"))}
+            init_len = L
         else:
             kw["initialize"] = int(rng.integers(N))
     if cls in sel.CUR_FAMILY:
@@ -93,7 +103,11 @@ def gen(rng, tier, index):
     lo = max(1, init_len)
     L = int(gens.pick(rng, (1, 1, 1, 2, 2, 3, 4)))
     L = min(L, N - lo + 1)
-    sizes = sorted(int(v) for v in rng.choice(np.arange(lo, N + 1), size=L, replace=False))
+    if many:
+        sizes = sorted(int(v) for v in rng.choice(np.arange(lo, lo + 12), size=min(L, 3), replace=False))
+    else:
+        sizes = None
+    sizes = sizes or sorted(int(v) for v in rng.choice(np.arange(lo, N + 1), size=L, replace=False))
     if rng.random() < 0.25 and N // 2 >= lo and N // 2 not in sizes and L == 1:
         sizes = [N // 2]
     chain = [{"n": _n_form(rng, e, N), "resolved": e} for e in sizes]
@@ -318,6 +332,8 @@ def run(case, j):
         j.note("non_default_containers")
     if spec.get("xint"):
         j.note("integer_typed_inputs")
+    if isinstance(spec["kw"].get("initialize"), dict) and spec["kw"]["initialize"].get("dtype"):
+        j.note("compact_dtype_seeds_with_many_candidates")
     est = sel.make(spec)
     tr = rt.GreedyTrace(est)
     if tr.missing:
